@@ -228,6 +228,9 @@ class SymKit(KitBase):
     def fresh_int(self, name):
         return z3.Int(self.ctx.fresh_name(name))
 
+    def setitem(self, v, i, value):
+        self.I.setitem(wrap(v), wrap(i), wrap(value))
+
     def instantiate(self, key):
         """Instantiate every universally quantified fact assumed from callee contracts at `key` (sound: an
         instance of a proved forall)."""
@@ -513,6 +516,9 @@ class ConcKit(KitBase):
 
     def index(self, v, i):
         return v[i]
+
+    def setitem(self, v, i, value):
+        v[i] = value
 
     def capture(self, owner, name, thunk):
         calls = []
